@@ -404,4 +404,196 @@ example : select ⟨0, some 0, some 1, none, none, some 12, 100, 0, none⟩ okSe
 example : InRange [(0, [⟨0, 0, 0, 10⟩, ⟨0, 0, 2, 11⟩]), (3, [⟨1, 0, 3, 12⟩])] := by
   simp [InRange]
 
+/-! ### end to end: the listing the S3 lister derives is sound for a well-formed log -/
+
+def sameTP (a b : Obj) : Prop := a.topic = b.topic ∧ a.partition = b.partition
+
+/-- a well-formed S3 log (what C02 promises): per partition the base offsets are distinct and a
+segment's offsets lie in `[base, b.base)` for every segment `b` of the partition with a larger base -/
+structure WellFormedObjs (objs : List Obj) : Prop where
+  ge_base : ∀ a ∈ objs, ∀ p ∈ a.recs, a.base ≤ p.1
+  lt_next : ∀ a ∈ objs, ∀ b ∈ objs, sameTP a b → a.base < b.base → ∀ p ∈ a.recs, p.1 < b.base
+  distinct : objs.Pairwise fun a b => sameTP a b → a.base ≠ b.base
+
+def Adj (R : Obj → Obj → Prop) : List Obj → Prop
+  | [] => True
+  | [_] => True
+  | a :: b :: t => R a b ∧ Adj R (b :: t)
+
+theorem objLe_total (a b : Obj) (h : objLe a b = false) : objLe b a = true := by
+  unfold objLe at h ⊢
+  by_cases ht : a.topic = b.topic
+  · by_cases hp : a.partition = b.partition
+    · simp [ht, hp] at h ⊢; omega
+    · have hp' : ¬ b.partition = a.partition := fun e => hp e.symm
+      simp [ht, hp, hp'] at h ⊢; omega
+  · have ht' : ¬ b.topic = a.topic := fun e => ht e.symm
+    simp [ht, ht'] at h ⊢; omega
+
+theorem objLe_same {a b : Obj} (h : objLe a b = true) (hs : sameTP a b) : a.base ≤ b.base := by
+  unfold objLe at h
+  simp [hs.1, hs.2] at h
+  exact h
+
+theorem insertObj_perm (o : Obj) (l : List Obj) : (insertObj o l).Perm (o :: l) := by
+  induction l with
+  | nil => exact List.Perm.refl _
+  | cons x t ih =>
+    unfold insertObj
+    split
+    · exact List.Perm.refl _
+    · exact (List.Perm.cons x ih).trans (List.Perm.swap o x t)
+
+theorem sortObjs_perm (l : List Obj) : (sortObjs l).Perm l := by
+  induction l with
+  | nil => exact List.Perm.refl _
+  | cons x t ih =>
+    show (insertObj x (sortObjs t)).Perm (x :: t)
+    exact (insertObj_perm x _).trans (List.Perm.cons x ih)
+
+theorem insertObj_adj (o : Obj) (l : List Obj) (h : Adj (fun a b => objLe a b = true) l) :
+    Adj (fun a b => objLe a b = true) (insertObj o l) := by
+  induction l with
+  | nil => simp [insertObj, Adj]
+  | cons x t ih =>
+    unfold insertObj
+    by_cases hle : objLe o x = true
+    · rw [if_pos hle]; exact ⟨hle, h⟩
+    · rw [if_neg hle]
+      have hxo : objLe x o = true := objLe_total o x (by simpa using hle)
+      cases t with
+      | nil => simp only [insertObj, Adj]; exact ⟨hxo, trivial⟩
+      | cons y t' =>
+        have hxy : objLe x y = true := h.1
+        have ih' := ih h.2
+        unfold insertObj at ih' ⊢
+        by_cases hoy : objLe o y = true
+        · rw [if_pos hoy] at ih' ⊢; exact ⟨hxo, ih'⟩
+        · rw [if_neg hoy] at ih' ⊢; exact ⟨hxy, ih'⟩
+
+theorem sortObjs_adj (l : List Obj) : Adj (fun a b => objLe a b = true) (sortObjs l) := by
+  induction l with
+  | nil => trivial
+  | cons x t ih => exact insertObj_adj x _ ih
+
+theorem buildRefs_sound (objs : List Obj) (hwf : WellFormedObjs objs) (ti : Bool) :
+    ∀ (l : List Obj) (i : Nat), (∀ x ∈ l, x ∈ objs) → Adj (fun a b => objLe a b = true) l →
+      l.Pairwise (fun a b => sameTP a b → a.base ≠ b.base) →
+      ∀ s ∈ buildRefs ti l i, StatsSound s ∧ PartitionSound s := by
+  intro l
+  induction l with
+  | nil => intro i _ _ _ s hs; simp [buildRefs] at hs
+  | cons o rest ih =>
+    intro i hmem hadj hdist s hs
+    simp only [buildRefs, List.mem_cons] at hs
+    rcases hs with rfl | hs
+    · have ho : o ∈ objs := hmem o (by simp)
+      constructor
+      · intro r hr
+        simp only [List.mem_map] at hr
+        obtain ⟨p, hp, rfl⟩ := hr
+        refine ⟨?_, ?_, ?_, ?_⟩
+        · intro m hm; simp only [Option.some.injEq] at hm; subst hm; exact hwf.ge_base o ho p hp
+        · intro m hm
+          simp only at hm
+          -- where does MaxOffset come from?
+          have hfooter : ∀ m', Option.map (fun x => x.2.2.2)
+              (if ti = true then scanSegment (o.recs.map fun p => (⟨i, o.partition, p.1, p.2⟩ : Rec)) else none) = some m' →
+              p.1 ≤ m' := by
+            intro m' hm'
+            cases hti : ti with
+            | false => simp [hti] at hm'
+            | true =>
+              simp only [hti, if_true, Option.map_eq_some_iff] at hm'
+              obtain ⟨⟨a, b, c, d⟩, hscan, hd⟩ := hm'
+              simp only at hd
+              subst hd
+              have := KafVerif.C36.scan_sound _ a b c d hscan ⟨i, o.partition, p.1, p.2⟩
+                (List.mem_map.mpr ⟨p, hp, rfl⟩)
+              exact this.2.2.2
+          cases rest with
+          | nil => exact hfooter m hm
+          | cons n rest' =>
+            simp only at hm
+            split at hm
+            · rename_i hsame
+              split at hm
+              · rename_i hpos
+                simp only [Option.some.injEq] at hm
+                subst hm
+                have hn : n ∈ objs := hmem n (by simp)
+                have hst : sameTP o n := ⟨hsame.1.symm, hsame.2.symm⟩
+                have hle := objLe_same hadj.1 hst
+                have hne := (List.pairwise_cons.mp hdist).1 n (by simp) hst
+                have := hwf.lt_next o ho n hn hst (by omega) p hp
+                show p.1 ≤ n.base - 1
+                omega
+              · exact hfooter m hm
+            · exact hfooter m hm
+        · intro m hm
+          simp only at hm
+          cases hti : ti with
+          | false => simp [hti] at hm
+          | true =>
+            simp only [hti, if_true, Option.map_eq_some_iff] at hm
+            obtain ⟨⟨a, b, c, d⟩, hscan, hd⟩ := hm
+            simp only at hd
+            subst hd
+            exact (KafVerif.C36.scan_sound _ a b c d hscan ⟨i, o.partition, p.1, p.2⟩
+              (List.mem_map.mpr ⟨p, hp, rfl⟩)).1
+        · intro m hm
+          simp only at hm
+          cases hti : ti with
+          | false => simp [hti] at hm
+          | true =>
+            simp only [hti, if_true, Option.map_eq_some_iff] at hm
+            obtain ⟨⟨a, b, c, d⟩, hscan, hd⟩ := hm
+            simp only at hd
+            subst hd
+            exact (KafVerif.C36.scan_sound _ a b c d hscan ⟨i, o.partition, p.1, p.2⟩
+              (List.mem_map.mpr ⟨p, hp, rfl⟩)).2.1
+      · intro r hr
+        simp only [List.mem_map] at hr
+        obtain ⟨p, _, rfl⟩ := hr
+        rfl
+    · have hadj' : Adj (fun a b => objLe a b = true) rest := by
+        cases rest with
+        | nil => trivial
+        | cons n t => exact hadj.2
+      exact ih (i + 1) (fun x hx => hmem x (List.mem_cons_of_mem _ hx)) hadj' (List.pairwise_cons.mp hdist).2 s hs
+
+/-- **C36 (listing).** For a well-formed S3 log, every segment reference `ListCompleted`
+returns (with or without the time index) carries sound statistics. -/
+theorem _root_.KafVerif.C36.listing_sound (objs : List Obj) (hwf : WellFormedObjs objs) (ti : Bool) :
+    ∀ s ∈ listCompleted objs ti, StatsSound s ∧ PartitionSound s := by
+  unfold listCompleted
+  have hperm := sortObjs_perm (objs.filter (·.complete))
+  apply buildRefs_sound objs hwf ti
+  · intro x hx
+    exact (List.mem_filter.mp (hperm.mem_iff.mp hx)).1
+  · exact sortObjs_adj _
+  · have hsym : ∀ {x y : Obj}, (sameTP x y → x.base ≠ y.base) → (sameTP y x → y.base ≠ x.base) :=
+      fun h hs e => h ⟨hs.1.symm, hs.2.symm⟩ e.symm
+    exact (List.Perm.pairwise_iff hsym hperm).mpr (hwf.distinct.filter _)
+
+/-- **C36 (end to end).** Over the listing derived from any well-formed S3 log, a SELECT returns
+exactly the direct filtering of the listed segments' records. -/
+theorem _root_.KafVerif.C36.select_over_listing (objs : List Obj) (hwf : WellFormedObjs objs) (ti : Bool)
+    (q : Query) (hl : 0 < q.limit) :
+    select q (listCompleted objs ti) = direct q (listCompleted objs ti) :=
+  KafVerif.C36.select_eq_direct q _ (fun s hs => (KafVerif.C36.listing_sound objs hwf ti s hs).1)
+    (fun s hs => (KafVerif.C36.listing_sound objs hwf ti s hs).2) hl
+
+example : WellFormedObjs [⟨0, 0, 0, true, [(0, 10), (2, 11)]⟩, ⟨0, 0, 3, true, [(3, 12)]⟩, ⟨0, 1, 0, false, []⟩] := by
+  refine ⟨?_, ?_, ?_⟩
+  · intro a ha p hp
+    simp only [List.mem_cons, List.not_mem_nil, or_false] at ha
+    rcases ha with rfl | rfl | rfl <;> simp at hp <;> (try rcases hp with rfl | rfl) <;> (try subst hp) <;> simp
+  · intro a ha b hb hs hlt p hp
+    simp only [List.mem_cons, List.not_mem_nil, or_false] at ha hb
+    rcases ha with rfl | rfl | rfl <;> rcases hb with rfl | rfl | rfl <;> simp [sameTP] at hs hlt hp ⊢ <;>
+      (try rcases hp with rfl | rfl) <;> (try subst hp) <;> simp
+  · simp [sameTP]
+
+
 end KafVerif.SqlFilter
